@@ -270,6 +270,30 @@ class Peer:
             self._write(dtid, k, pid, text)
         return val
 
+    def emitnoeol(self, pid):
+        """writes its token without finishing the line"""
+        dtid, k, n = self._hit(pid)
+        f = self._fault(dtid, k, pid, n)
+        text = tok(pid, n)
+        if f is not None:
+            self._misbehave_pre(f, pid, n, sys._getframe(1).f_globals)
+            if f['kind'] == 'wrong':
+                text = tok(pid, n, wrong=True)
+            elif f['kind'] in ('mute', 'drop_line'):
+                text = ''
+        if text:
+            self._write(dtid, k, pid, text)
+
+    async def abg(self, pid, pid_cleanup):
+        """body of a background task: waits (virtually) for an hour; when it is
+        cancelled its clean-up code runs and writes a line"""
+        dtid, k, n = self._hit(pid)
+        try:
+            await asyncio.sleep(3600)
+        finally:
+            dtid2, k2, n2 = self._hit(pid_cleanup)
+            self._write(dtid2, k2, pid_cleanup, tok(pid_cleanup, n2) + '\n')
+
     def deco(self, pid):
         """decorator factory: evaluating the decorator expression is a hit"""
         dtid, k, n = self._hit(pid)
@@ -411,7 +435,7 @@ PEER = Peer()
 def install():
     """Create the module object `_xdsim` whose attributes forward to PEER."""
     mod = types.ModuleType(MODNAME)
-    for name in ('op', 'emit', 'emitop', 'deco', 'say', 'aop', 'actx', 'point', 'names', 'modglobal', 'importing'):
+    for name in ('op', 'emit', 'emitop', 'emitnoeol', 'abg', 'deco', 'say', 'aop', 'actx', 'point', 'names', 'modglobal', 'importing'):
         setattr(mod, name, getattr(PEER, name))
     mod.Val = Val
     mod.SimError = SimError
